@@ -1151,7 +1151,7 @@ def FIBER(
 
     h = (
         length
-        if (beta_2 == 0 and beta_3 == 0) or gamma == 0
+        if (alpha == 0 and beta_2 == 0 and beta_3 == 0) or gamma == 0
         else phi_max / (gamma * np.sum(np.abs(np.atleast_2d(A)) ** 2, axis=0)).max()
     )
 
